@@ -325,3 +325,32 @@ Proof.
       unfold is_role. rewrite role_eqb_sym. exact E2.
     + specialize (F2 x Hx). unfold dv_finished in F2. destruct x as [st id]. cbn [fst snd] in *. apply L. exact F2.
 Qed.
+
+(* ---------- pending peers ---------- *)
+Lemma is_finish_p_nil r s : is_finish_p [] r s = is_finish r s.
+Proof. unfold is_finish_p. destruct s; cbn [existsb negb]; rewrite andb_true_r; reflexivity. Qed.
+
+Lemma is_finish_p_sound pend r s : is_finish_p pend r s = true -> is_finish r s = true.
+Proof. unfold is_finish_p. intros H. apply andb_true_iff in H. tauto. Qed.
+
+(* a step held back by a pending peer: it is an add step whose peer is already there; its precondition holds, nothing
+   is sent again, and ConfVerChanged already counts it - the operator only waits *)
+Lemma pending_only_waits pend r s :
+  ND (peers r) -> is_finish r s = true -> is_finish_p pend r s = false ->
+  (exists st id, (s = AddPeer st id \/ s = AddLearner st id \/ s = AddLightPeer st id \/ s = AddLightLearner st id) /\ In id pend)
+  /\ check_safety r s = None /\ cmd_of_step r s = None /\ conf_ver_changed r s = 1.
+Proof.
+  intros Hnd Hf Hp. unfold is_finish_p in Hp. rewrite Hf in Hp. cbn [andb] in Hp.
+  assert (Hin : forall id, negb (existsb (Z.eqb id) pend) = false -> In id pend).
+  { intros id H. apply negb_false_iff, existsb_exists in H as (x & Hx & E). apply Z.eqb_eq in E. subst x. exact Hx. }
+  destruct s as [f t|st id|st id|st id|st id|st id|st id|st id|pl dv|pl dv|pa tr|fr]; try discriminate Hp;
+    cbn [is_finish check_safety cmd_of_step conf_ver_changed] in *.
+  - destruct (get_store_voter r st) as [p|] eqn:Ev; [|discriminate]. destruct (voter_some r Hnd _ _ Ev) as [Ep _].
+    rewrite Ep. cbn [is_some oid]. rewrite Hf. cbn. repeat split; eauto 10.
+  - destruct (get_store_learner r st) as [p|] eqn:Ev; [|discriminate]. destruct (learner_some r Hnd _ _ Ev) as [Ep Hl].
+    rewrite Ep. cbn [is_some oid]. rewrite Hf, Hl. cbn. repeat split; eauto 10.
+  - destruct (get_store_voter r st) as [p|] eqn:Ev; [|discriminate]. destruct (voter_some r Hnd _ _ Ev) as [Ep _].
+    rewrite Ep. cbn [is_some oid]. rewrite Hf. cbn. repeat split; eauto 10.
+  - destruct (get_store_learner r st) as [p|] eqn:Ev; [|discriminate]. destruct (learner_some r Hnd _ _ Ev) as [Ep Hl].
+    rewrite Ep. cbn [is_some oid]. rewrite Hf, Hl. cbn. repeat split; eauto 10.
+Qed.
